@@ -78,13 +78,18 @@ def decorate(rng, doc, draft):
             elif k == "examples":
                 v = [gs.gen_value(rng, 1) for _ in range(rng.randint(0, 3))]
             elif k == "contentSchema":
-                v = rng.choice([True, False, Obj([("type", "string")]), Obj([("not", Obj())])])
+                v = rng.choice([True, False, Obj([("type", "string")]), Obj([("not", Obj())]), Obj([("unevaluatedProperties", False)]),
+                                Obj([("unevaluatedItems", False)])])
             elif k == "defs":
                 # both spellings are non-asserting containers in both drafts
                 k = ("$defs" if draft == "2020" else "definitions") if rng.random() < 0.6 else ("definitions" if draft == "2020" else "$defs")
                 if o.get(k) is not None:
                     continue
-                v = Obj([("unused%d" % rng.randint(0, 9), rng.choice([False, Obj([("type", "null")]), Obj([("not", Obj())])]))])
+                v = Obj([("unused%d" % rng.randint(0, 9), rng.choice([False, Obj([("type", "null")]), Obj([("not", Obj())]),
+                                                                        Obj([("unevaluatedProperties", False)]), Obj([("unevaluatedItems", Obj([("type", "null")]))]),
+                                                                        Obj([("allOf", [Obj([("unevaluatedProperties", False), ("properties", Obj([("a", True)]))])])]),
+                                                                        Obj([("$dynamicAnchor", "unusedanchor")]), Obj([("pattern", "^a")]),
+                                                                        Obj([("required", ["a"]), ("default", Obj())])]))])
             else:
                 v = rng.random() < 0.5
             if o.get(k) is None:
@@ -161,11 +166,24 @@ def gen(rng, tier, n):
             # inside an annotation-producing subschema (e.g. a title inside `contains: {}`) must not change what it evaluates
             o7 = c07.gen_case(rng, tier)
             doc = o7["args"]["schema"]
-            if o7["args"].get("docs") or not isinstance(doc, Obj):
+            if not isinstance(doc, Obj):
                 continue
             doc2, folded = decorate(rng, doc, draft)
-            ops.append({"op": "decorate", "args": {"schema": doc, "schema2": doc2, "insts": o7["args"]["insts"][:8]},
-                        "meta": {"kw": gs.count_keywords(doc), "folded": folded, "c07": True}})
+            args = {"schema": doc, "schema2": doc2, "insts": o7["args"]["insts"][:8]}
+            if o7["args"].get("docs"):
+                # the annotation consumers live in a Loader document; only the ROOT document is decorated
+                args["docs"], args["loader"] = o7["args"]["docs"], True
+                if rng.random() < 0.6 and isinstance(doc2, Obj):
+                    # an unreferenced definition (or a contentSchema) of the root that itself uses an annotation consumer
+                    u = rng.choice([Obj([("unevaluatedProperties", False)]), Obj([("unevaluatedItems", False)]),
+                                    Obj([("allOf", [Obj([("unevaluatedItems", Obj())])])])])
+                    if rng.random() < 0.3 and doc2.get("contentSchema") is None:
+                        doc2.set("contentSchema", u)
+                    elif doc2.get("$defs") is None and doc2.get("definitions") is None:
+                        doc2.set("$defs", Obj([("unusedU", u)]))
+                    elif isinstance(doc2.get("$defs"), Obj):
+                        doc2.get("$defs").set("unusedU", u)
+            ops.append({"op": "decorate", "args": args, "meta": {"kw": gs.count_keywords(doc), "folded": folded, "c07": True}})
             continue
         if draft == "2020" and rng.random() < 0.06:
             # a decoration next to a bare $ref hop of a dynamic-scope topology must not change which resources are in scope
